@@ -10,7 +10,8 @@
 (* to request with what the model predicts for them.                                       *)
 EXTENDS Zip, TLC
 
-CONSTANTS FullLen,       \* lists of this length over the full universe
+CONSTANTS MetaLen,       \* lists of this length over the header-field universe (0: none)
+          FullLen,       \* lists of this length over the full universe
           CoreLen,       \* lists of this length over the order-sensitive core
           UnivFull, UnivCore,
           Known          \* ids of recorded (not repaired) defects: the invariants exclude exactly their input class
@@ -19,10 +20,11 @@ VARIABLES ms, i, st, phase, out
 vars == <<ms, i, st, phase, out>>
 
 NoDest == [abs |-> FALSE, c |-> <<>>]
-F(p, tag) == [p |-> p, k |-> "f", dest |-> NoDest, tag |-> tag]
-D(p)      == [p |-> p, k |-> "d", dest |-> NoDest, tag |-> "dir"]
-L(p, c)   == [p |-> p, k |-> "l", dest |-> [abs |-> FALSE, c |-> c], tag |-> "link"]
-LA(p, c)  == [p |-> p, k |-> "l", dest |-> [abs |-> TRUE, c |-> c], tag |-> "link"]
+F(p, tag) == [p |-> p, k |-> "f", dest |-> NoDest, tag |-> tag, md |-> "std"]
+D(p)      == [p |-> p, k |-> "d", dest |-> NoDest, tag |-> "dir", md |-> "std"]
+L(p, c)   == [p |-> p, k |-> "l", dest |-> [abs |-> FALSE, c |-> c], tag |-> "link", md |-> "std"]
+LA(p, c)  == [p |-> p, k |-> "l", dest |-> [abs |-> TRUE, c |-> c], tag |-> "link", md |-> "std"]
+Md(m, md) == [m EXCEPT !.md = md]            \* the same member with other header fields
 
 A    == F(<<"a">>, "plain")
 Dd   == D(<<"d">>)
@@ -65,8 +67,12 @@ Consistent(s) ==
     /\ \A x \in 1..Len(s), y \in 1..Len(s) : x # y => s[x].p # s[y].p
     /\ \A x \in 1..Len(s), y \in 1..Len(s) :
           (s[x].k # "d" /\ x # y) => ~(Len(s[y].p) > Len(s[x].p) /\ IsPrefix(s[x].p, s[y].p))
+\* the header-field dimension: the file a with every class of header fields, a directory member, a link
+\* and a nested file with an all-zero date
+UnivMeta == {Md(F(<<"a">>, "plain"), x) : x \in MetaClasses \ {"std"}}
+            \cup {Md(D(<<"d">>), "dt0"), Md(L(<<"l">>, <<"a">>), "dt0"), Md(F(<<"d", "a">>, "plain"), "dt0"), Md(D(<<"d">>), "dos")}
 SeqsUpTo(U, n) == UNION {{s \in [1..k -> U] : Consistent(s)} : k \in 1..n}
-Lists == SeqsUpTo(UnivFull, FullLen) \cup SeqsUpTo(UnivCore, CoreLen)
+Lists == SeqsUpTo(UnivFull, FullLen) \cup SeqsUpTo(UnivCore, CoreLen) \cup SeqsUpTo(UnivMeta, MetaLen)
 
 \* ---------------------------------------------------------------------------------------
 \* selectors of the model: everything either side can reach by listing, every member path and
